@@ -391,3 +391,55 @@ def responder_for(inv, sim):
     if isinstance(inv._protocol, TcpInverterProtocol):
         return TcpSimResponder(sim)
     return RtuSimResponder(sim)
+
+
+# ---------------------------------------------------------------------------------------------
+# model configurations (C14, C15, C16, C18)
+# ---------------------------------------------------------------------------------------------
+def et_serials():
+    """One serial number per ET tag of goodwe/model.py plus the special substrings and a neutral one."""
+    import goodwe.model as gm
+    out = []
+    for tag in gm.ET_MODEL_TAGS:
+        out.append(("9010K" + tag + "000W0000")[:16].encode())
+    out += [b"925KETT000W00001", b"929K9ETT00W00001", b"925KETU000W00001", b"9010KXYZ000W0000", b"95000EHU000W0001", b"96000HSB000W0001"]
+    return list(dict.fromkeys(out))
+
+
+def dt_serials():
+    import goodwe.model as gm
+    out = [("9010K" + tag + "000W0000")[:16].encode() for tag in gm.DT_MODEL_TAGS]
+    out += [b"9010KXYZ000W0000"]
+    return list(dict.fromkeys(out))
+
+
+def es_serials():
+    import goodwe.model as gm
+    return [("95048" + tag + "000W0000")[:16].encode() for tag in gm.ES_MODEL_TAGS] + [b"95048XYZ000W0000"]
+
+
+ET_OPTIONAL = ("battery", "battery2", "meter_ext2", "meter_ext", "mppt", "eco_v2", "peak_shaving")
+DT_OPTIONAL = ("meter", "meter_version", "model")
+
+
+def make_inverter(family, tcp=False, T=1, R=0):
+    import goodwe
+    cls = {"ET": goodwe.ET, "DT": goodwe.DT, "ES": goodwe.ES}[family]
+    return cls("192.0.2.1", 502 if tcp else 8899, 0, T, R)
+
+
+def build_direct(cfg, default=0):
+    """cfg: family, serial(bytes), rated_power, battery_mode, refuse (names), tcp.  Returns (inverter, simulator)."""
+    fam = cfg["family"]
+    inv = make_inverter(fam, cfg.get("tcp", False))
+    if fam == "ET":
+        sim = make_et_sim(serial=cfg["serial"], rated_power=cfg.get("rated_power", 10000), default=default,
+                          refuse_blocks=cfg.get("refuse", ()))
+        sim.set(35184, cfg.get("battery_mode", 1))
+    elif fam == "DT":
+        sim = make_dt_sim(serial=cfg["serial"], default=default, refuse_blocks=cfg.get("refuse", ()))
+    else:
+        sim = Aa55Sim(device_info=es_device_info(serial=cfg["serial"], firmware=cfg.get("firmware", b"02041")),
+                      modbus=ModbusSim(default=default))
+    attach_direct(inv, responder_for(inv, sim))
+    return inv, sim
